@@ -7,6 +7,10 @@ fields, so it can neither be passed to nor closed over by `jax.jit`); for T >= 2
 `jax.disable_jit()` (scan/cond as Python loops: a plain eager call re-compiles every scan on every
 call, 0.5-2 s per call), cross-checked bit-for-bit against the plain eager mode.
 
+Configurations cover the symmetric regime of the circulant tensors (2k <= N) and, separately, the
+non-symmetric ones: k_obs > N/2 (row/column mix-ups of the observation tensor become visible) and
+k_trans > N/2 (input class "k_trans>N/2": a transposed transition matrix becomes visible).
+
 Oracle (numpy float64, brute force): the joint table  p(z, x) = pi0[z1] B[z1,x1] prod_t A[z_{t-1},z_t]
 B[z_t,x_t]  with A, B the row-softmax of the configuration's transition/observation tensors (the
 tensors are the model's parameters and are read from the configuration; the reference recomputes
@@ -47,18 +51,22 @@ ASSUMPTIONS = [
     "jax.random.categorical(key, logits) draws from softmax(logits); distinct split keys are independent",
     "for T >= 2 library calls run under jax.disable_jit() (lax.scan/cond as Python loops, same primitives); "
     "cross-checked bit-for-bit against the ordinary eager mode on the default path of one case per (configuration, N, T)",
-    "parameters outside the 2-value alphabets (truncation {0,1}, variance {0.5,1.0}) and N > 3, T > 3 are not covered",
+    "parameters outside the alphabets (truncation {0,1} plus the non-symmetric regimes k_obs > N/2 and k_trans > N/2 for "
+    "N in {3,4}; variance {0.5,1.0}) and N > 4, T > 3 are not covered",
 ]
 BOUNDS = {
     "quick": dict(
         N2="T = 2: 8 configurations (half factorial of truncation x variance alphabets: every triple of parameter values "
            "occurs); T = 1: 2 configurations; all observation sequences",
-        N3="T = 2, all 9 observation sequences, 3 configurations",
+        N3="T = 2, all 9 observation sequences, 2 symmetric configurations + 1 with k_obs=2 (non-symmetric observation tensor) "
+           "+ 1 with k_trans=2 (non-symmetric transition tensor, input class k_trans>N/2)",
         latent="all N**T latent sequences", tree="complete (N**T leaves)",
     ),
     "thorough": dict(
         N2="T in {1,2,3}, all observation sequences, all 16 configurations",
-        N3="T in {1,2,3}, all observation sequences (27 for T = 3), all 16 configurations",
+        N3="T in {1,2,3}, all observation sequences (27 for T = 3), all 16 symmetric configurations + k_obs=2 (8 configurations; "
+           "4 for T=3) + k_trans=2 (4 configurations for T=2, 2 for T=3)",
+        N4="T in {1,2}, all observation sequences, k_obs=3 with k_trans in {0,2} (4 configurations); k_trans=3 (1 configuration, T=2)",
         latent="all N**T latent sequences", tree="complete (N**T leaves)",
     ),
 }
@@ -73,11 +81,16 @@ SIGMA = (0.5, 1.0)
 
 
 def ref_circulant(N, k, eps, delta):
-    """the documented source row: eps**|i| within the truncation distance (cyclically), else -delta"""
+    """first column: eps**i for i <= k, eps**(N-i) for N-i <= k (first rule wins), else -delta; entry (i,j) = column[(i-j) mod N].
+    Symmetric iff 2k <= N (or eps == 1)."""
     src = []
     for i in range(N):
-        d = min(i, N - i)
-        src.append(eps**d if d <= k else -delta)
+        if i <= k:
+            src.append(eps**i)
+        elif N - i <= k:
+            src.append(eps ** (N - i))
+        else:
+            src.append(-delta)
     M = np.zeros((N, N))
     for i in range(N):
         for j in range(N):
@@ -140,13 +153,15 @@ def _run(N, kt, ko, st, so, obs, seed):
         key = base_key(seed)
         cfg = DiscreteHMMConfiguration(jnp.array(N), jnp.array(kt), jnp.array(ko), jnp.array(st), jnp.array(so))
         cfg_key = (N, kt, ko, st, so)
+        # 2k <= N: the circulant tensor is symmetric; beyond that it is not (row/column and transpose mix-ups show)
+        klass = "k_trans>N/2" if 2 * kt > N else ("k_obs>N/2" if 2 * ko > N else "any")
         T = len(obs)
         jobs = jnp.array(obs, dtype=jnp.int32)
         tt = np.asarray(cfg.transition_tensor(), dtype=np.float64)
         ot = np.asarray(cfg.observation_tensor(), dtype=np.float64)
         ctx.ev((cfg_key, "tensors"), nontrivial=False)
         if not (close(tt, ref_circulant(N, kt, st, 1.0 / st)) and close(ot, ref_circulant(N, ko, so, 1.0 / so))):
-            ctx.fail("DiscreteHMMConfiguration", "tensors", "any", "tensor", dict(cfg=cfg_key, tt=tt, ot=ot))
+            ctx.fail("DiscreteHMMConfiguration", "tensors", klass, "tensor", dict(cfg=cfg_key, tt=tt, ot=ot))
         joint = ref_joint(tt, ot, obs)
         Z = sum(joint.values())
         post = {z: p / Z for z, p in joint.items()}
@@ -164,11 +179,11 @@ def _run(N, kt, ko, st, so, obs, seed):
                 v = DiscreteHMM.estimate_logpdf(key, jnp.array(z, dtype=jnp.int32), cfg, jobs)
                 v = np.asarray(v, dtype=np.float64)
             except Exception as e:
-                ctx.fail(_blame(e), "estimate_logpdf", "any", f"exception:{type(e).__name__}",
+                ctx.fail(_blame(e), "estimate_logpdf", klass, f"exception:{type(e).__name__}",
                          dict(**detail0, latent=list(z), error=str(e)[:300]))
                 break
             if v.shape != () or not close(v, np.log(post[z])):
-                ctx.fail("latent_sequence_posterior", "estimate_logpdf", "any", "logpdf",
+                ctx.fail("latent_sequence_posterior", "estimate_logpdf", klass, "logpdf",
                          dict(**detail0, latent=list(z), expected=float(np.log(post[z])), actual=v))
             else:
                 est[z] = float(v)
@@ -177,17 +192,17 @@ def _run(N, kt, ko, st, so, obs, seed):
             tot = float(sum(np.exp(v) for v in est.values()))
             ctx.note("normalisation_checks")
             if not close(tot, 1.0):
-                ctx.fail("latent_sequence_posterior", "estimate_logpdf", "any", "normalisation", dict(**detail0, total=tot))
+                ctx.fail("latent_sequence_posterior", "estimate_logpdf", klass, "normalisation", dict(**detail0, total=tot))
 
         # (ii) data_logpdf
         ctx.ev((cfg_key, obs, "data_logpdf"), nontrivial=True)
         try:
             d = np.asarray(DiscreteHMM.data_logpdf(cfg, jobs), dtype=np.float64)
             if d.shape != () or not close(d, np.log(Z)):
-                ctx.fail("log_data_marginal", "data_logpdf", "any", "logpdf",
+                ctx.fail("log_data_marginal", "data_logpdf", klass, "logpdf",
                          dict(**detail0, expected=float(np.log(Z)), actual=d))
         except Exception as e:
-            ctx.fail(_blame(e), "data_logpdf", "any", f"exception:{type(e).__name__}", dict(**detail0, error=str(e)[:300]))
+            ctx.fail(_blame(e), "data_logpdf", klass, f"exception:{type(e).__name__}", dict(**detail0, error=str(e)[:300]))
 
         # (iii) complete tree of random_weighted (fallback: the sampler it delegates to)
         def rw():
@@ -207,12 +222,12 @@ def _run(N, kt, ko, st, so, obs, seed):
                 ctx.cap(str(e))
             except Exception as e:
                 ctx.ev((cfg_key, obs, "random_weighted", "raised"), nontrivial=False)
-                ctx.fail(_blame(e), "random_weighted", "any", f"exception:{type(e).__name__}", dict(**detail0, error=str(e)[:300]))
+                ctx.fail(_blame(e), "random_weighted", klass, f"exception:{type(e).__name__}", dict(**detail0, error=str(e)[:300]))
                 op = "ffbs"
                 try:
                     paths, stats = seam.explore(ffbs, max_paths=4096)
                 except Exception as e2:
-                    ctx.fail(_blame(e2), "ffbs", "any", f"exception:{type(e2).__name__}", dict(**detail0, error=str(e2)[:300]))
+                    ctx.fail(_blame(e2), "ffbs", klass, f"exception:{type(e2).__name__}", dict(**detail0, error=str(e2)[:300]))
             # the op-by-op mode must agree bit-for-bit with the ordinary eager mode (default path)
             if paths is not None and T >= 2 and all(o == 0 for o in obs):
                 fn = rw if op == "random_weighted" else ffbs
@@ -240,18 +255,18 @@ def _run(N, kt, ko, st, so, obs, seed):
                 ctx.ev((cfg_key, obs, op, z), nontrivial=p.n_branch > 0)
                 ctx.outcome((N, T, z))
                 if v.shape != (T,) or not np.issubdtype(v.dtype, np.integer) or z not in post:
-                    ctx.fail("forward_filtering_backward_sampling", op, "any", "sample_support", dict(**detail0, sample=v))
+                    ctx.fail("forward_filtering_backward_sampling", op, klass, "sample_support", dict(**detail0, sample=v))
                     continue
                 mass[z] = mass.get(z, 0.0) + p.prob
                 if op == "random_weighted":
                     w = np.asarray(p.result["w"], dtype=np.float64)
                     if w.shape != () or not close(w, np.log(post[z])):
-                        ctx.fail("DiscreteHMM.random_weighted", op, "any", "weight",
+                        ctx.fail("DiscreteHMM.random_weighted", op, klass, "weight",
                                  dict(**detail0, latent=list(z), expected=float(np.log(post[z])), actual=w))
             for z in latents:
                 ctx.ev((cfg_key, obs, op, "mass", z), nontrivial=nontriv)
                 if abs(mass.get(z, 0.0) - post[z]) > 1e-5:
-                    ctx.fail("forward_filtering_backward_sampling", op, "any", "sample_distribution",
+                    ctx.fail("forward_filtering_backward_sampling", op, klass, "sample_distribution",
                              dict(**detail0, latent=list(z), expected=post[z], actual=mass.get(z, 0.0)))
 
         # (iv) latent_marginals
@@ -264,9 +279,9 @@ def _run(N, kt, ko, st, so, obs, seed):
                 for t in range(T):
                     ref[t, z[t]] += p
             if probs.shape != ref.shape or not np.allclose(probs, ref, atol=1e-5):
-                ctx.fail("latent_marginals", "latent_marginals", "any", "marginals", dict(**detail0, expected=ref, actual=probs))
+                ctx.fail("latent_marginals", "latent_marginals", klass, "marginals", dict(**detail0, expected=ref, actual=probs))
         except Exception as e:
-            ctx.fail(_blame(e), "latent_marginals", "any", f"exception:{type(e).__name__}", dict(**detail0, error=str(e)[:300]))
+            ctx.fail(_blame(e), "latent_marginals", klass, f"exception:{type(e).__name__}", dict(**detail0, error=str(e)[:300]))
 
     return run
 
@@ -278,14 +293,27 @@ def _half(seed, configs):
 
 
 def _plan(tier, seed):
+    """[(N, T, configurations)];  configuration = (k_trans, k_obs, sigma_trans, sigma_obs)"""
     allc = list(itertools.product(TRUNC, TRUNC, SIGMA, SIGMA))
     half = _half(seed, allc)
+    alt = SIGMA[seed % 2]
     if tier == "quick":
-        # three configurations for N=3 in which both values of every parameter occur
+        # symmetric regime: three configurations for N=3 in which both values of every parameter occur
         triples = [t for t in itertools.combinations(half, 3) if all(len({c[i] for c in t}) == 2 for i in range(4))]
         n3 = list(triples[(seed // 2) % len(triples)])
-        return [(3, 2, n3), (2, 2, half), (2, 1, n3[:2])]
-    return [(3, 3, allc), (2, 3, allc), (3, 2, allc), (2, 2, allc), (3, 1, allc), (2, 1, allc)]
+        asym_obs = [(seed % 2, 2, alt, 0.5)]  # 2*k_obs > N: non-symmetric observation tensor
+        asym_trans = [(2, (seed // 2) % 2, 0.5, alt)]  # 2*k_trans > N: non-symmetric transition tensor
+        return [(3, 2, n3[:2] + asym_obs + asym_trans), (2, 2, half), (2, 1, n3[:2])]
+    asym_obs3 = [(kt, 2, st, so) for kt in TRUNC for st in SIGMA for so in SIGMA]
+    asym_trans3 = [(2, ko, 0.5, so) for ko in (0, 2) for so in SIGMA]
+    asym_obs4 = [(kt, 3, st, 0.5) for kt in (0, 2) for st in SIGMA]
+    asym_trans4 = [(3, 1, 0.5, 0.5)]
+    return [
+        (3, 3, allc + [c for c in asym_obs3 if c[3] == 0.5] + asym_trans3[:2]),
+        (4, 2, asym_obs4 + asym_trans4),
+        (2, 3, allc), (3, 2, allc + asym_obs3 + asym_trans3), (2, 2, allc),
+        (3, 1, allc + asym_obs3), (4, 1, asym_obs4), (2, 1, allc),
+    ]
 
 
 def cases(tier, seed):
